@@ -94,6 +94,20 @@ def strategy_impl(draw, tier):
         dims = {"face": sub["Kx"] * sub["Ky"]}
         dims.update({e[0]: e[1] for e in sub["extra"]})
     chunks = {d: draw(compositions(L)) for d, L in dims.items()}
+    if kind in ("stencil", "stencil-weighted", "cumsum") and len(sub["op_axes"]) >= 2:
+        # multi-axis calls: the interesting patterns - one operated dimension in several chunks, the others whole - are drawn
+        # on purpose now and then (independent compositions produce them only rarely)
+        pattern = draw(st.sampled_from(["free", "free", "first-chunked", "last-chunked"]))
+        if pattern != "free":
+            opdims = [gen.dim_name(n, sub["data_pos"][n]) for n in sub["op_axes"]]
+            split = opdims[0] if pattern == "first-chunked" else opdims[-1]
+            for d in opdims:
+                L = dims[d]
+                if d == split and L >= 2:
+                    k = draw(st.integers(1, L - 1))
+                    chunks[d] = [k, L - k]
+                elif d != split:
+                    chunks[d] = [L]
     case = {"kind": kind, "sub": sub, "chunks": chunks, "scheduler": draw(st.sampled_from(["synchronous", "threads"]))}
     if kind == "faces-vector":
         # used only when the decomposition has no links at all (a simple grid: there every dimension may be chunked)
